@@ -120,10 +120,23 @@ func c12History(k int, s string) {
 		_ = redact.Sprintf("%v %v", []error{safeErr{"e"}}, pubStruct{"a", 1})
 	case 25:
 		_ = redact.Sprint(reentSF{s})
+	case 26:
+		// a plain Formatter that discovers the SafePrinter and prints through it, under Unsafe()
+		_ = redact.Sprintf("%v", redact.Unsafe(scrFormatter{[]int{stPrintStr, stPrintfStr, stSafeString}, s}))
+	case 27:
+		_ = redact.Sprintf("%v", redact.Safe(scrFormatter{[]int{stPrintStr, stPrintfStr}, s}))
+	case 28:
+		// containers of every sort (scratch objects of the map sorter etc.)
+		_ = redact.Sprint(map[string]int{"hunter2": 42, "b": 1}, []string{s}, [2]int{1, 2}, map[int]string{3: s})
+	case 29:
+		// Fprint onto a writer that looks at what it is given
+		w := &hWriter{}
+		_, _ = redact.Fprintf(w, "%v|%5d", s, 3)
+		_, _ = redact.Fprint(w, s, 4)
 	}
 }
 
-const nC12Histories = 26
+const nC12Histories = 30
 
 // c12Probe runs probe k and returns everything observable about it.
 func c12Probe(k int, s string) (out []byte) {
@@ -174,8 +187,26 @@ func c12Probe(k int, s string) (out []byte) {
 		return []byte(redact.Sprintf("%v", map[string]interface{}{"k": s}))
 	case 12:
 		return []byte(redact.Sprintf("%v %v", []error{valErr{s}}, pubStruct{s, 1}))
+	case 13:
+		// empty and nil containers
+		return []byte(redact.Sprint(map[string]int{}, map[string]int(nil), []string{}, []int(nil), struct{}{}))
+	case 14:
+		// a writer that makes a print call of its own before it looks at its input
+		w := &reentWriter{}
+		_, _ = redact.Fprintf(w, "f %v|%d", s, 5)
+		return w.got
 	}
 	panic("c12Probe")
+}
+
+// reentWriter is a log-sink style writer: it prints something itself
+// (through the library) before consuming what it was handed.
+type reentWriter struct{ got []byte }
+
+func (w *reentWriter) Write(p []byte) (int, error) {
+	_ = redact.Sprintf("sink: %d bytes %s", len(p), "zzzzzzzzzzzzzzzzzzzzzzzzzzzzzzzz")
+	w.got = append(w.got, p...)
+	return len(p), nil
 }
 
 func c12Expected(k int, s string) []byte {
@@ -187,11 +218,15 @@ func c12Expected(k int, s string) []byte {
 		return cat([]byte("map[‹k›:"), es, []byte("]"))
 	case 12:
 		return cat([]byte("["), es, []byte("] {"), es, []byte(" ‹1›}"))
+	case 13:
+		return []byte("map[] map[] [] [] {}")
+	case 14:
+		return cat([]byte("f "), es, []byte("|‹5›"))
 	}
 	panic("c12Expected")
 }
 
-const nC12Probes = 13
+const nC12Probes = 15
 
 // H_c12: a probe call gives the same result after any history as on a
 // fresh process; sync.Pool is the adversarial model (Get may return any
